@@ -3,7 +3,7 @@ from . import has_class
 CFG = {
     "harness": ["v1", "v2"],
     "functional": ["C02.raw"],
-    "required_classes": ["import-path-with-non-ascii-letters", "single-element-path-equal-to-the-output-leaf", "raw", "with-tracker", "without-tracker", "output-is-program-package", "local-type", "retypecheck", "synthetic", "zero-length-array", "same-illegal-leaf-twice", "nested-struct-after-struct", "numbered-alias-twice", "path-with-tilde-or-plus", "import-lines-asked-midway", "directory-without-letter-or-digit"],
+    "required_classes": ["import-path-with-non-ascii-letters", "single-element-path-equal-to-the-output-leaf", "raw", "with-tracker", "without-tracker", "output-is-program-package", "local-type", "retypecheck", "synthetic", "zero-length-array", "same-illegal-leaf-twice", "nested-struct-after-struct", "numbered-alias-twice", "path-with-tilde-or-plus", "import-lines-asked-midway", "directory-without-letter-or-digit", "leaf-becomes-keyword-after-stripping"],
     "rule": "types taken from the universes of generated programs (parsed by the real loaders), restricted to C02's fragment; for each of 4 rounds per program: an output package (fresh, the last program package, packages named like a version or a keyword), with or without an import tracker, 1-6 types named through ONE raw namer; compared with the model (names and final import lines); oracle: the rendered text is written into a file of the output package together with the tracker's import lines (or base-name imports), parsed and type-checked with go/types against the program, every variable's type must be identical to the original and every import must be needed; non-trivial = input longer than 12 characters",
     "exhaustive": [],
     "modelled": 'rawNamer.Name with DefaultImportTracker (the tracker model of C07); the lexing/parsing of the rendered text back into a type is go/parser + go/types in the oracle, not modelled',
